@@ -20,13 +20,14 @@ func init() {
 				"(nocache) every AppDB loader caches only non-empty reads, so records written behind the caches by Restore on a fresh node are seen afterwards; (dirty) C09.dirty, because a restarted producer with a stale emission record would snapshot different contents. " +
 				"NOT decided: IAVL export/import, chunking/compression, behaviour of later blocks.",
 			Assumptions: stdAssumptions,
-			Rules:       []string{"C29.records", "C29.wg", "C29.nocache", "C29.dirty", "C29.fromdisk", "C29.fallback"},
+			Rules:       []string{"C29.records", "C29.wg", "C29.nocache", "C29.dirty", "C29.fromdisk", "C29.fallback", "C29.leaf"},
 		},
 		Run: runC29,
 	})
 }
 
 func runC29(c *core.Ctx) {
+	defer checkLeafValues(c, "C29.leaf")
 	f := loadAppDB(c)
 	if f == nil {
 		c.Unk("C29.records", "appdb.AppDB", token.NoPos, "type not found")
@@ -429,4 +430,247 @@ func loaderStores(c *core.Ctx, f *appDBFacts, d string) map[*ssa.Function]ssa.In
 func saversOrMutators(g *ssa.Function, af *appField) bool {
 	_, isMut := af.Mutators[g]
 	return isMut && g.Signature.Results().Len() == 0
+}
+
+// ---------------------------------------------------------------- C29.leaf
+
+// checkLeafValues — a snapshot travels as protobuf, which cannot tell an empty byte string from an
+// absent one, and iavl's importer refuses a leaf whose value is nil ("value cannot be nil for leaf
+// node") — yet the state tree does hold leaves with empty values (a validator's accumulated
+// reward right after a pay-out), so a node built for Importer.Add must get a non-nil Key, and a
+// non-nil Value unless it is an inner node. Decided per path from the construction of the
+// ExportNode to the Add call (or to the return of the helper that builds it): the value last
+// stored in the field is a literal / freshly made slice, or one the path compared with nil, or
+// the path established Height != 0. `append(nil, v...)` of an empty v is nil again.
+func checkLeafValues(c *core.Ctx, rule string) {
+	t := c.Named(pkgAppDB, "AppDB")
+	if t == nil {
+		c.Unk(rule, "appdb.AppDB", token.NoPos, "type not found")
+		return
+	}
+	restore := c.Method(t, "Restore")
+	if restore == nil {
+		c.Unk(rule, "AppDB.Restore", token.NoPos, "Restore not found")
+		return
+	}
+	n := 0
+	for _, s := range core.Sites(restore) {
+		if !s.Common.IsInvoke() && s.Common.StaticCallee() == nil {
+			continue
+		}
+		if methodName(s) != "Add" || !strings.Contains(s.Common.Signature().String(), "ExportNode") {
+			continue
+		}
+		node := s.Arg(0)
+		if s.Common.IsInvoke() {
+			node = s.Common.Args[0]
+		}
+		n++
+		key := fmt.Sprintf("Restore/Importer.Add#%d", n)
+		switch x := core.Unwrap(node).(type) {
+		case *ssa.Alloc:
+			bad := leafPaths(x, s.Instr, s.Block(), false)
+			c.Check(bad == "", rule, key, s.Pos(), "every node handed to the importer has a non-nil key and, unless it is an inner node, a non-nil value", "a node can reach Importer.Add "+bad+": iavl rejects it and the restore of a snapshot that contains an empty-valued leaf aborts half way (height and hash already written)")
+		case *ssa.Extract:
+			call, ok := x.Tuple.(*ssa.Call)
+			if !ok || call.Call.StaticCallee() == nil || call.Call.StaticCallee().Blocks == nil {
+				c.Unk(rule, key, s.Pos(), "the node handed to the importer is built by code the rule cannot follow")
+				continue
+			}
+			h := call.Call.StaticCallee()
+			bad, found := "", false
+			for _, r := range core.Returns(h) {
+				if x.Index >= len(r.Results) {
+					continue
+				}
+				if al, ok := core.Unwrap(r.Results[x.Index]).(*ssa.Alloc); ok {
+					found = true
+					if b := leafPaths(al, r, r.Block(), true); b != "" && bad == "" {
+						bad = b
+					}
+				}
+			}
+			if !found {
+				c.Unk(rule, key, s.Pos(), "the helper "+h.Name()+" does not build the node in a recognised way")
+				continue
+			}
+			c.Check(bad == "", rule, key, s.Pos(), "every node built by "+h.Name()+" has a non-nil key and, unless it is an inner node, a non-nil value", "a node built by "+h.Name()+" can reach Importer.Add "+bad+": iavl rejects it and the restore of a snapshot that contains an empty-valued leaf aborts half way (height and hash already written)")
+		default:
+			c.Unk(rule, key, s.Pos(), "the node handed to the importer is not a freshly built ExportNode")
+		}
+	}
+	c.Floor(rule, n, 1, "Importer.Add calls in Restore")
+}
+
+// leafPaths walks every acyclic path from the allocation of the node to the target instruction
+// and returns a description of the first path on which Key, or Value of a possible leaf, may be nil.
+func leafPaths(al *ssa.Alloc, target ssa.Instruction, tb *ssa.BasicBlock, fromEntry bool) string {
+	from := al.Block()
+	if fromEntry {
+		from = al.Parent().Blocks[0]
+	}
+	can := map[*ssa.BasicBlock]bool{}
+	for _, b := range from.Parent().Blocks {
+		if b == tb || core.ReachFrom(b, nil)[tb] {
+			can[b] = true
+		}
+	}
+	bad := ""
+	count := 0
+	type state struct {
+		cur      map[string]ssa.Value
+		alias    map[ssa.Value]ssa.Value
+		nonnil   map[ssa.Value]bool
+		nonzero  []ssa.Value
+	}
+	clone := func(s state) state {
+		n := state{cur: map[string]ssa.Value{}, alias: map[ssa.Value]ssa.Value{}, nonnil: map[ssa.Value]bool{}, nonzero: append([]ssa.Value{}, s.nonzero...)}
+		for k, v := range s.cur {
+			n.cur[k] = v
+		}
+		for k, v := range s.alias {
+			n.alias[k] = v
+		}
+		for k, v := range s.nonnil {
+			n.nonnil[k] = v
+		}
+		return n
+	}
+	var definitelyNonNil func(v ssa.Value, st state, d int) bool
+	definitelyNonNil = func(v ssa.Value, st state, d int) bool {
+		if v == nil || d > 6 {
+			return false
+		}
+		if a, ok := st.alias[v]; ok {
+			v = a
+		}
+		if st.nonnil[v] {
+			return true
+		}
+		switch x := v.(type) {
+		case *ssa.Slice:
+			if _, ok := x.X.(*ssa.Alloc); ok {
+				return true
+			}
+			return definitelyNonNil(x.X, st, d+1) && x.Low == nil
+		case *ssa.MakeSlice:
+			return true
+		case *ssa.Call:
+			if b, ok := x.Call.Value.(*ssa.Builtin); ok && b.Name() == "append" {
+				return definitelyNonNil(x.Call.Args[0], st, d+1)
+			}
+		case *ssa.Phi:
+			for _, e := range x.Edges {
+				if !definitelyNonNil(e, st, d+1) {
+					return false
+				}
+			}
+			return len(x.Edges) > 0
+		case *ssa.ChangeType:
+			return definitelyNonNil(x.X, st, d+1)
+		}
+		return false
+	}
+	onPath := map[*ssa.BasicBlock]bool{}
+	var dfs func(b *ssa.BasicBlock, st state, started bool)
+	dfs = func(b *ssa.BasicBlock, st state, started bool) {
+		if bad != "" || count > 4096 {
+			return
+		}
+		onPath[b] = true
+		defer func() { onPath[b] = false }()
+		for _, in := range b.Instrs {
+			if in == ssa.Instruction(al) {
+				started = true
+			}
+			if !started {
+				continue
+			}
+			if in == target {
+				count++
+				if !definitelyNonNil(st.cur["Key"], st, 0) {
+					bad = "with a nil Key"
+				} else if !heightNonZero(st.cur["Height"], st.nonzero) && !definitelyNonNil(st.cur["Value"], st, 0) {
+					bad = "as a leaf (Height 0 not excluded) with a nil Value"
+				}
+				return
+			}
+			switch x := in.(type) {
+			case *ssa.Store:
+				if fa, ok := x.Addr.(*ssa.FieldAddr); ok && fa.X == ssa.Value(al) {
+					st.cur[fieldNameOf(fa)] = x.Val
+				}
+			case *ssa.UnOp:
+				if fa, ok := x.X.(*ssa.FieldAddr); ok && x.Op == token.MUL && fa.X == ssa.Value(al) {
+					if v, ok := st.cur[fieldNameOf(fa)]; ok {
+						st.alias[x] = v
+					}
+				}
+			}
+		}
+		iff := core.IfOf(b)
+		for i, s := range b.Succs {
+			if !can[s] || onPath[s] {
+				continue
+			}
+			ns := clone(st)
+			if iff != nil {
+				taken := i == 0
+				if bin, ok := iff.Cond.(*ssa.BinOp); ok && (bin.Op == token.EQL || bin.Op == token.NEQ) {
+					isEq := (bin.Op == token.EQL) == taken
+					l, r := bin.X, bin.Y
+					if k, ok := l.(*ssa.Const); ok && (k.IsNil() || k.Value != nil) {
+						l, r = r, l
+					}
+					if k, ok := r.(*ssa.Const); ok {
+						if a, ok := ns.alias[l]; ok {
+							l = a
+						}
+						if k.IsNil() && !isEq {
+							ns.nonnil[l] = true
+						}
+						if kk, ok := core.ConstInt(k); ok && kk == 0 && !isEq {
+							ns.nonzero = append(ns.nonzero, l)
+						}
+					}
+				}
+			}
+			for _, in := range s.Instrs {
+				ph, ok := in.(*ssa.Phi)
+				if !ok {
+					break
+				}
+				for k, pred := range s.Preds {
+					if pred == b && k < len(ph.Edges) {
+						e := ph.Edges[k]
+						if a, ok := ns.alias[e]; ok {
+							e = a
+						}
+						ns.alias[ph] = e
+					}
+				}
+			}
+			dfs(s, ns, started)
+		}
+	}
+	dfs(from, state{cur: map[string]ssa.Value{}, alias: map[ssa.Value]ssa.Value{}, nonnil: map[ssa.Value]bool{}}, false)
+	_ = fromEntry
+	if count == 0 && bad == "" {
+		return "on a path the rule could not enumerate"
+	}
+	return bad
+}
+
+// heightNonZero: the value stored as the node's Height (or what it was converted from) is one the
+// path compared with 0 and found different.
+func heightNonZero(h ssa.Value, nonzero []ssa.Value) bool {
+	if h == nil {
+		return false
+	}
+	for _, v := range nonzero {
+		if core.Unwrap(h) == core.Unwrap(v) || core.SamePath(h, v) || core.SamePath(core.Unwrap(h), v) {
+			return true
+		}
+	}
+	return false
 }
